@@ -54,7 +54,7 @@ func kindAndPub(k any) (string, string) {
 
 func pemLine(class, api, mode string, pemBytes, pass []byte) string {
 	noblock, ptype, proc, isenc, decrypt, der, dsarest, dsaparams, dsacons := 0, "", "", 0, 0, "err", 0, "-", "-"
-	dsax, dsay, dsaexp := "-", "-", "-"
+	dsax, dsay, dsaexp, dsaqprime, dsagq := "-", "-", "-", "0", "-"
 	blk, _ := pem.Decode(pemBytes)
 	if blk == nil {
 		noblock = 1
@@ -102,6 +102,13 @@ func pemLine(class, api, mode string, pemBytes, pass []byte) string {
 					if k.P.Sign() > 0 && k.Priv.Sign() >= 0 { // the stdlib value the check compares with Pub
 						dsaexp = hx.Hex(wire.MpintBytes(new(big.Int).Exp(k.G, k.Priv, k.P)))
 					}
+					// stdlib answers used by the group test of f1d7a77
+					if k.Q.Sign() > 0 && k.Q.ProbablyPrime(20) {
+						dsaqprime = "1"
+					}
+					if k.P.Sign() > 0 && k.Q.Sign() >= 0 {
+						dsagq = hx.Hex(wire.MpintBytes(new(big.Int).Exp(k.G, k.Q, k.P)))
+					}
 					dsacons = "0"
 					if k.P.Sign() > 0 && k.Priv.Sign() > 0 && new(big.Int).Exp(k.G, k.Priv, k.P).Cmp(k.Pub) == 0 {
 						dsacons = "1"
@@ -121,8 +128,8 @@ func pemLine(class, api, mode string, pemBytes, pass []byte) string {
 			}
 		}
 	}
-	return fmt.Sprintf("pem class=%s api=%s mode=%s pem=%s pass=%s noblock=%d ptype=%s proctype=%s isenc=%d decrypt=%d der=%s dsarest=%d dsaparams=%s dsax=%s dsay=%s dsaexp=%s dsacons=%s",
-		class, api, mode, hx.Hex(pemBytes), hx.Hex(pass), noblock, hx.Hex([]byte(ptype)), hx.Hex([]byte(proc)), isenc, decrypt, der, dsarest, dsaparams, dsax, dsay, dsaexp, dsacons)
+	return fmt.Sprintf("pem class=%s api=%s mode=%s pem=%s pass=%s noblock=%d ptype=%s proctype=%s isenc=%d decrypt=%d der=%s dsarest=%d dsaparams=%s dsax=%s dsay=%s dsaexp=%s dsaqprime=%s dsagq=%s dsacons=%s",
+		class, api, mode, hx.Hex(pemBytes), hx.Hex(pass), noblock, hx.Hex([]byte(ptype)), hx.Hex([]byte(proc)), isenc, decrypt, der, dsarest, dsaparams, dsax, dsay, dsaexp, dsaqprime, dsagq, dsacons)
 }
 
 func dsaDER(k *dsa.PrivateKey) []byte {
@@ -184,7 +191,25 @@ func genPem(g *hx.Gen, r *hx.Rand) {
 		switch r.Intn(7) {
 		case 6:
 			class = "dsa-inconsistent" // public value of another key / private value changed, zero, negative, + Q
-			switch r.Intn(5) {
+			switch r.Intn(10) {
+			case 5: // X = Q exactly: G^Q = 1, so Pub = 1 is "consistent"; only the range test X < Q refuses it
+				k.X = new(big.Int).Set(k.Q)
+				k.Y = big.NewInt(1)
+			case 6, 7: // former defect (f1d7a77): one bit of Q flipped — sizes, X < Q and Y = G^X still hold, no group
+				class = "dsa-bad-group"
+				k.Q = new(big.Int).Xor(k.Q, new(big.Int).Lsh(big.NewInt(1), uint(1+r.Intn(150))))
+			case 8: // G of order 1 or 2
+				class = "dsa-bad-group"
+				if r.Bool() {
+					k.G = big.NewInt(1)
+					k.Y = big.NewInt(1)
+				} else {
+					k.G = new(big.Int).Sub(k.P, big.NewInt(1))
+					k.Y = new(big.Int).Exp(k.G, k.X, k.P)
+				}
+			case 9: // Q replaced by a composite divisor-looking value: 2Q (even, 161 bits → also refused by size for signers)
+				class = "dsa-bad-group"
+				k.Q = new(big.Int).Lsh(k.Q, 1)
 			case 0:
 				k.Y = new(big.Int).Set(wire.NewKey("dsa", []byte("other"), "").DSA.Y)
 			case 1:
@@ -263,6 +288,11 @@ func genPem(g *hx.Gen, r *hx.Rand) {
 		if err == nil {
 			blk = e
 			class += "+legacy-enc"
+			if r.Chance(1, 5) { // really encrypted, but the Proc-Type header is gone (DEK-Info stays):
+				// x509.IsEncryptedPEMBlock says yes, encryptedBlock says no → "not an encrypted key"
+				delete(blk.Headers, "Proc-Type")
+				class += "+dek-without-proctype"
+			}
 			switch r.Intn(4) {
 			case 0:
 				mode = "plain" // → PassphraseMissingError
